@@ -249,9 +249,13 @@ def check_one(res: Result, ctx, m, label, entry, carrier_name, obj, d, n=None, e
                 why = 'result not a member'
             if why is None and m.kind != 'real':
                 # the implementation's own membership test must agree
+                # (representable_under short-cuts to True for a value that already carries this context, so the
+                # format's own predicate is asked as well)
                 try:
                     if not ctx.representable_under(r):
                         why = 'representable_under(result) is False'
+                    elif not ctx.format().representable_in(r):
+                        why = 'format().representable_in(result) is False'
                 except Exception as e:   # noqa
                     why = f'representable_under raised {type(e).__name__}'
     if why is not None:
